@@ -373,7 +373,24 @@ int main(int argc, char **argv)
         if (depth == K) return;
         for (int i = 0; i < (int)alpha.size(); i++) { idx.push_back(i); rec(depth + 1); idx.pop_back(); }
     };
-    rec(0);
+    if (K > 0) rec(0);
+    // Longer patterns over a REDUCED alphabet built around the conditionals: the same placeholder inside blocks of different types,
+    // inside and outside a block, repeated after a block ... (two well-formed blocks need six tokens, out of reach of the full alphabet)
+    int K2 = vx::argInt(argc, argv, "--cond-tokens", 0);
+    if (K2 > 0) {
+        const std::vector<std::string> R = { "%{if-debug}", "%{if-critical}", "%{endif}", "%{message}", "%{type}", "%{a}", "x", "%{o?,1}", "%{message:>5}" };
+        std::vector<int> e;
+        std::function<void(int)> rec2 = [&](int depth) {
+            if ((int)e.size() > K && (patNo++ % nshards) == shard) {      // the short ones were covered above
+                std::string p;
+                for (int i : e) p += R[i];
+                runPattern(p, true); sum.states++; sum.counters["conditional_family_patterns"]++;
+            }
+            if (depth == K2) return;
+            for (int i = 0; i < (int)R.size(); i++) { e.push_back(i); rec2(depth + 1); e.pop_back(); }
+        };
+        rec2(0);
+    }
     for (auto &kv : excl) sum.counters["excluded: " + kv.first] = kv.second;
     sum.print();
     return 0;
